@@ -138,7 +138,7 @@ def replay(body):
 def run(ctx):
     rng = ctx.rng
     ctx.check_theorems()
-    ctx.check_generated(['crop', 'eval', 'k'])
+    ctx.check_generated(['crop', 'eval', 'k', 'kelev', 'klog'])
     # (K) model = implementation on translated pairs (small frames)
     items = []
     for k in range(ctx.n(8, 50)):
